@@ -64,16 +64,20 @@ type jcaller struct {
 	User   uint64  `json:"user"`
 }
 type jop struct {
-	Op     string `json:"op"`   // find1 findn create update delete
-	Kind   string `json:"kind"` // bucket org user auth
-	Var    int    `json:"var"`  // method / wrapper variant (see methodName)
-	ID     uint64 `json:"id,omitempty"`
-	Flt    string `json:"flt,omitempty"` // none id org user
-	FltArg uint64 `json:"flt_arg,omitempty"`
-	ByName bool   `json:"by_name,omitempty"` // resolve the id to its name/token and call the by-name form
-	New    *jres  `json:"new,omitempty"`
-	Pay    uint64 `json:"pay,omitempty"`
-	Active bool   `json:"active,omitempty"`
+	Op     string   `json:"op"`   // find1 findn create update delete
+	Kind   string   `json:"kind"` // bucket org user auth
+	Var    int      `json:"var"`  // method / wrapper variant (see methodName)
+	ID     uint64   `json:"id,omitempty"`
+	Flt    string   `json:"flt,omitempty"` // none id org user
+	FltArg uint64   `json:"flt_arg,omitempty"`
+	ByName bool     `json:"by_name,omitempty"` // resolve the id to its name/token and call the by-name form
+	XOrg   uint64   `json:"x_org,omitempty"`   // also set the org field of the filter (id+org combinations; userorg)
+	XUser  uint64   `json:"x_user,omitempty"`  // also set the user field of the filter
+	XName  bool     `json:"x_name,omitempty"`  // also set the name field of an id filter to a name that is not the resource's
+	FltIDs []uint64 `json:"flt_ids,omitempty"` // flt=ids: ids of the buckets carrying the name (resolved in the pre-state)
+	New    *jres    `json:"new,omitempty"`
+	Pay    uint64   `json:"pay,omitempty"`
+	Active bool     `json:"active,omitempty"`
 	// observed
 	Method string   `json:"impl_method,omitempty"`
 	Cls    int      `json:"impl_cls"`
@@ -205,6 +209,10 @@ func opTerm(o *jop) string {
 			f = "(FOrg " + vh.N(o.FltArg) + ")"
 		case "user":
 			f = "(FUser " + vh.N(o.FltArg) + ")"
+		case "ids":
+			f = "(FIDs " + vh.Ns(o.FltIDs) + ")"
+		case "userorg":
+			f = "(FUserOrg " + vh.N(o.FltArg) + " " + vh.N(o.XOrg) + ")"
 		}
 		call = fmt.Sprintf("(CFindN %s %s)", k, f)
 	case "create":
@@ -413,7 +421,7 @@ func (w *world) exec(vw *vh.W, ctx context.Context, o *jop) {
 	o.NewID = 0
 	var err error
 	cur := w.cur
-	name := "nope"
+	name, nope := "nope", "nope"
 	var tgt *jres
 	if o.Op != "create" && o.Op != "findn" {
 		tgt = cur.find(o.Kind, o.ID)
@@ -457,10 +465,38 @@ func (w *world) exec(vw *vh.W, ctx context.Context, o *jop) {
 			} else {
 				m = "BucketService.FindBuckets{ID}"
 				f.ID = pid(o.FltArg)
+				if o.XOrg != 0 {
+					f.OrganizationID = pid(o.XOrg)
+					m = "BucketService.FindBuckets{ID,OrgID foreign}"
+					if tgt != nil && tgt.Org == o.XOrg {
+						m = "BucketService.FindBuckets{ID,OrgID matching}"
+					}
+				}
+				if o.XName {
+					f.Name = &nope
+					m += "+Name"
+				}
 			}
+		case "ids":
+			m = "BucketService.FindBuckets{Name}"
+			tgt = cur.find("bucket", o.FltArg)
+			if tgt != nil {
+				name = tgt.name
+			}
+			o.FltIDs = []uint64{}
+			for _, r := range cur.Res {
+				if r.Kind == "bucket" && r.name == name {
+					o.FltIDs = append(o.FltIDs, r.ID)
+				}
+			}
+			f.Name = &name
 		case "org":
 			m = "BucketService.FindBuckets{OrgID}"
 			f.OrganizationID = pid(o.FltArg)
+			if og := cur.find("org", o.FltArg); o.ByName && og != nil {
+				m = "BucketService.FindBuckets{Org name}"
+				f.OrganizationID, f.Org = nil, &og.name
+			}
 		default:
 			m = "BucketService.FindBuckets{}"
 		}
@@ -509,6 +545,14 @@ func (w *world) exec(vw *vh.W, ctx context.Context, o *jop) {
 			} else {
 				m = "OrgService.FindOrganizations{ID}"
 				f.ID = pid(o.FltArg)
+				if o.XUser != 0 {
+					f.UserID = pid(o.XUser)
+					m = "OrgService.FindOrganizations{ID,UserID}"
+				}
+				if o.XName {
+					f.Name = &nope
+					m += "+Name"
+				}
 			}
 		case "user":
 			m = "OrgService.FindOrganizations{UserID}"
@@ -560,6 +604,10 @@ func (w *world) exec(vw *vh.W, ctx context.Context, o *jop) {
 			} else {
 				m = "UserService.FindUsers{ID}"
 				f.ID = pid(o.FltArg)
+				if o.XName {
+					f.Name = &nope
+					m += "+Name"
+				}
 			}
 		default:
 			m = "UserService.FindUsers{}"
@@ -611,6 +659,17 @@ func (w *world) exec(vw *vh.W, ctx context.Context, o *jop) {
 				m = wn + ".FindAuthorizations{ID}"
 				f.ID = pid(o.FltArg)
 			}
+			if o.XOrg != 0 {
+				f.OrgID = pid(o.XOrg)
+				m += "+OrgID"
+			}
+			if o.XUser != 0 {
+				f.UserID = pid(o.XUser)
+				m += "+UserID"
+			}
+		case "userorg":
+			m = wn + ".FindAuthorizations{UserID,OrgID}"
+			f.UserID, f.OrgID = pid(o.FltArg), pid(o.XOrg)
 		case "org":
 			m = wn + ".FindAuthorizations{OrgID}"
 			f.OrgID = pid(o.FltArg)
@@ -885,7 +944,7 @@ func (g *gen) genCase(idx int) jcase {
 		authIDs = append(authIDs, uint64(1001+i))
 	}
 	// caller
-	var mintOrg, mintUser uint64
+	var mintOrg, mintUser, readOrg uint64
 	c.Caller = jcaller{Active: r.IntN(12) != 0, User: g.pick(append([]uint64{0, 9}, userIDs...))}
 	switch x := r.IntN(20); {
 	case x == 0: // operator token
@@ -897,7 +956,14 @@ func (g *gen) genCase(idx int) jcase {
 			c.Caller.Perms = append(c.Caller.Perms, fromPerm(p))
 		}
 	case x == 2: // nothing
-	case x < 6: // a token-minting member of one org: may create tokens there for one user, plus a few more permissions
+	case x < 5: // may read one org and all its buckets (the shape an org-wide fast path would test for), plus a few more
+		o := g.pick(orgIDs)
+		readOrg = o
+		c.Caller.Perms = []jperm{{"read", "orgs", u(o), nil}, {"read", "buckets", nil, u(o)}}
+		for i := r.IntN(3); i > 0; i-- {
+			c.Caller.Perms = append(c.Caller.Perms, g.genPerm(orgIDs, bucketIDs, userIDs, authIDs))
+		}
+	case x < 8: // a token-minting member of one org: may create tokens there for one user, plus a few more permissions
 		o, us := g.pick(orgIDs), g.pick(userIDs)
 		mintOrg, mintUser = o, us
 		c.Caller.User = us
@@ -940,9 +1006,40 @@ func (g *gen) genCase(idx int) jcase {
 			case y < 3:
 				o.Flt = "none"
 			case y < 5:
-				o.Flt, o.FltArg, o.ByName = "id", target, r.IntN(2) == 0
+				o.Flt, o.FltArg, o.ByName = "id", target, r.IntN(3) == 0
+				if r.IntN(2) == 0 { // combined filters: the id is resolved first, the rest must not matter
+					switch k {
+					case "bucket":
+						if !o.ByName {
+							o.XOrg = g.pick(orgIDs)
+							if readOrg != 0 && r.IntN(3) != 0 {
+								o.XOrg = readOrg
+							}
+						}
+					case "org":
+						if !o.ByName {
+							o.XUser = g.pick(append([]uint64{8}, userIDs...))
+						}
+					case "auth":
+						if r.IntN(2) == 0 {
+							o.XOrg = g.pick(orgIDs)
+						} else {
+							o.XUser = g.pick(userIDs)
+						}
+					}
+					if !o.ByName && k != "auth" {
+						o.XName = r.IntN(3) == 0
+					}
+				}
 			case y < 7 && (k == "bucket" || k == "auth"):
 				o.Flt, o.FltArg = "org", g.pick(append([]uint64{7}, orgIDs...))
+				o.ByName = k == "bucket" && r.IntN(3) == 0
+				if k == "bucket" && r.IntN(4) == 0 {
+					o.Flt, o.FltArg, o.ByName = "ids", target, false
+				}
+				if k == "auth" && r.IntN(3) == 0 {
+					o.Flt, o.XOrg, o.FltArg = "userorg", o.FltArg, g.pick(append([]uint64{8}, userIDs...))
+				}
 			case k == "org" || k == "auth":
 				o.Flt, o.FltArg = "user", g.pick(append([]uint64{8}, userIDs...))
 			default:
@@ -1006,6 +1103,75 @@ func (g *gen) genCase(idx int) jcase {
 		}
 		c.Ops = append(c.Ops, o)
 	}
+	return c
+}
+
+// genMultiPerm: token creation with MULTI-permission lists (2-4 permissions) mixing held and
+// un-held permissions of the same action/type with different scopes, in every order, through
+// both authorization wrappers.  No permission names both an id and an org here, so none of these
+// cases carries the known-finding signature.
+func (g *gen) genMultiPerm(idx int) jcase {
+	r := g.vw.Rng
+	c := jcase{Label: "multi-permission-tokens", Setup: []jsetup{{Kind: "user", Pay: 10}, {Kind: "user", Pay: 11}, {Kind: "org", Pay: 21}, {Kind: "org", Pay: 22},
+		{Kind: "bucket", Org: 1, Pay: 31}, {Kind: "bucket", Org: 2, Pay: 32}}}
+	A := uint64(1 + r.IntN(2))
+	B := 3 - A
+	us := uint64(1 + r.IntN(2))
+	c.Caller = jcaller{Active: true, User: us, Perms: []jperm{{"write", "authorizations", nil, u(A)}, {"read", "authorizations", nil, u(A)},
+		{"write", "users", u(us), nil}, {"read", "users", u(us), nil}}}
+	types := []string{"buckets", "buckets", "orgs", "users", "authorizations", "tasks"}
+	ids := map[string][]uint64{"buckets": {105, 106, 101}, "orgs": {1, 2}, "users": {1, 2}, "authorizations": {1001, 1002}, "tasks": {5, 6}}
+	var held []jperm
+	for i := 1 + r.IntN(3); i > 0; i-- {
+		h := jperm{Action: []string{"read", "write"}[r.IntN(2)], Type: types[r.IntN(len(types))]}
+		switch r.IntN(6) {
+		case 0: // type-wide
+		case 1, 2: // id-scoped
+			h.ID = u(g.pick(ids[h.Type]))
+		default: // org-scoped
+			h.Org = u(A)
+		}
+		held = append(held, h)
+	}
+	c.Caller.Perms = append(c.Caller.Perms, held...)
+	variants := func(h jperm) []jperm { // same action/type, other scopes; other action
+		vs := []jperm{{h.Action, h.Type, nil, nil}, {h.Action, h.Type, nil, u(A)}, {h.Action, h.Type, nil, u(B)},
+			{h.Action, h.Type, u(g.pick(ids[h.Type])), nil}, {h.Action, h.Type, u(g.pick(ids[h.Type])), nil}}
+		o := h
+		o.Action = map[string]string{"read": "write", "write": "read"}[h.Action]
+		return append(vs, o, h, h)
+	}
+	payc := uint64(100 + 20*idx%800)
+	nops := 4 + r.IntN(4)
+	for len(c.Ops) < nops {
+		h := held[r.IntN(len(held))]
+		vs := variants(h)
+		n := 2 + r.IntN(3)
+		ps := []jperm{h}
+		for len(ps) < n {
+			if r.IntN(4) == 0 {
+				ps = append(ps, variants(held[r.IntN(len(held))])[r.IntN(8)])
+			} else {
+				ps = append(ps, vs[r.IntN(len(vs))])
+			}
+		}
+		r.Shuffle(len(ps), func(i, j int) { ps[i], ps[j] = ps[j], ps[i] })
+		orders := [][]jperm{ps}
+		if r.IntN(2) == 0 { // the same list reversed, through the other wrapper
+			rev := make([]jperm, len(ps))
+			for i := range ps {
+				rev[len(ps)-1-i] = ps[i]
+			}
+			orders = append(orders, rev)
+		}
+		v := r.IntN(2)
+		for _, l := range orders {
+			payc++
+			c.Ops = append(c.Ops, jop{Op: "create", Kind: "auth", Var: v, New: &jres{Kind: "auth", Org: A, User: us, Pay: payc, Active: true, Perms: l}})
+			v = 1 - v
+		}
+	}
+	c.Ops = append(c.Ops, jop{Op: "findn", Kind: "auth", Flt: "none", Var: r.IntN(2)})
 	return c
 }
 
@@ -1085,6 +1251,31 @@ func corpus() []jcase {
 			{Op: "delete", Kind: "auth", ID: 1001}, {Op: "create", Kind: "auth", New: &jres{Kind: "auth", Org: 1, User: 2, Pay: 97, Active: true}},
 			{Op: "create", Kind: "auth", New: &jres{Kind: "auth", Org: 1, User: 1, Pay: 98, Active: true, Perms: []jperm{{"read", "buckets", nil, u(1)}}}},
 			{Op: "create", Kind: "auth", New: &jres{Kind: "auth", Org: 1, User: 1, Pay: 99, Active: true, Perms: []jperm{{"read", "users", u(1), nil}, {"read", "authorizations", nil, u(1)}}}}}})
+	// 8. combined filters: an id in the filter is resolved first, whatever org/name/user comes with it
+	cs = append(cs, jcase{Label: "combined-filters", Setup: base,
+		Caller: jcaller{Active: true, User: 1, Perms: []jperm{{"read", "orgs", u(1), nil}, {"read", "buckets", nil, u(1)}, {"read", "authorizations", nil, u(1)}, {"read", "users", u(1), nil}}},
+		Ops: []jop{{Op: "findn", Kind: "bucket", Flt: "org", FltArg: 1}, {Op: "findn", Kind: "bucket", Flt: "org", FltArg: 1, ByName: true},
+			{Op: "findn", Kind: "bucket", Flt: "org", FltArg: 2}, {Op: "findn", Kind: "bucket", Flt: "id", FltArg: 105, XOrg: 1},
+			{Op: "findn", Kind: "bucket", Flt: "id", FltArg: 106, XOrg: 1}, {Op: "findn", Kind: "bucket", Flt: "id", FltArg: 103, XOrg: 1},
+			{Op: "findn", Kind: "bucket", Flt: "id", FltArg: 105, XOrg: 2}, {Op: "findn", Kind: "bucket", Flt: "id", FltArg: 106, XOrg: 2, XName: true},
+			{Op: "findn", Kind: "bucket", Flt: "id", FltArg: 105, ByName: true}, {Op: "findn", Kind: "bucket", Flt: "id", FltArg: 106, ByName: true},
+			{Op: "findn", Kind: "bucket", Flt: "ids", FltArg: 101}, {Op: "findn", Kind: "bucket", Flt: "ids", FltArg: 105}, {Op: "findn", Kind: "bucket", Flt: "ids", FltArg: 77},
+			{Op: "findn", Kind: "org", Flt: "id", FltArg: 2, XUser: 1}, {Op: "findn", Kind: "org", Flt: "id", FltArg: 1, XUser: 2, XName: true},
+			{Op: "findn", Kind: "user", Flt: "id", FltArg: 2, XName: true}, {Op: "findn", Kind: "user", Flt: "id", FltArg: 1, XName: true},
+			{Op: "findn", Kind: "auth", Flt: "id", FltArg: 1002, XOrg: 1}, {Op: "findn", Kind: "auth", Flt: "id", FltArg: 1001, XOrg: 2, Var: 1},
+			{Op: "findn", Kind: "auth", Flt: "id", FltArg: 1002, XUser: 1}, {Op: "findn", Kind: "auth", Flt: "userorg", FltArg: 1, XOrg: 1},
+			{Op: "findn", Kind: "auth", Flt: "userorg", FltArg: 2, XOrg: 1, Var: 1}, {Op: "findn", Kind: "auth", Flt: "id", FltArg: 1002, ByName: true, XOrg: 1}}})
+	// 9. multi-permission token requests: a held org-scoped permission next to un-held ones of the same action/type
+	minter := cat(rw("authorizations", nil, u(1)), rw("users", u(1), nil), []jperm{{"read", "buckets", nil, u(1)}, {"write", "tasks", u(5), nil}})
+	tok := func(v int, pay uint64, ps ...jperm) jop {
+		return jop{Op: "create", Kind: "auth", Var: v, New: &jres{Kind: "auth", Org: 1, User: 1, Pay: pay, Active: true, Perms: ps}}
+	}
+	hb, gb, ob, ib := jperm{"read", "buckets", nil, u(1)}, jperm{"read", "buckets", nil, nil}, jperm{"read", "buckets", nil, u(2)}, jperm{"read", "buckets", u(106), nil}
+	ht, gt, ot := jperm{"write", "tasks", u(5), nil}, jperm{"write", "tasks", nil, nil}, jperm{"write", "tasks", u(6), nil}
+	cs = append(cs, jcase{Label: "multi-permission-tokens", Setup: base, Caller: jcaller{Active: true, User: 1, Perms: minter},
+		Ops: []jop{tok(0, 60, hb, gb), tok(1, 61, hb, gb), tok(0, 62, gb, hb), tok(1, 63, gb, hb), tok(0, 64, hb, ob), tok(1, 65, hb, ib), tok(0, 66, hb, hb, gb),
+			tok(1, 67, ht, hb, gt), tok(0, 68, ht, ot), tok(1, 69, ot, ht), tok(0, 70, hb, ht), tok(1, 71, hb, ht, hb), tok(0, 72, ht, hb, jperm{"write", "buckets", nil, u(1)}),
+			tok(1, 73, hb, jperm{"read", "tasks", u(5), nil}), {Op: "findn", Kind: "auth", Flt: "none"}}})
 	return cs
 }
 
@@ -1104,7 +1295,12 @@ func main() {
 	}
 	g := &gen{vw: vw}
 	for i := 0; vw.Len() < vw.N; i++ {
-		c := g.genCase(i)
+		var c jcase
+		if i%4 == 3 {
+			c = g.genMultiPerm(i)
+		} else {
+			c = g.genCase(i)
+		}
 		run(vw, &c)
 	}
 	vw.Extra["wrapper_methods_exercised"] = methodsSeen
